@@ -663,6 +663,11 @@ func (vfs *MemFS) Remove(name string) error {
 		return &fs.PathError{Op: op, Path: name, Err: err}
 	}
 
+	if child == node(parent) {
+		// the root directory can't be removed.
+		return &fs.PathError{Op: op, Path: name, Err: vfs.err.InvalidArgument}
+	}
+
 	parent.mu.Lock()
 	defer parent.mu.Unlock()
 
